@@ -55,6 +55,34 @@ type Swarm struct {
 // Swarm implements mesh.Gossiper.
 var _ mesh.Gossiper = &Swarm{}
 
+// payload is what the swarm hands to the gossip layer. When two payloads meet on a link
+// the gossip layer keeps pending.Merge(next) and expects the union of both, whereas
+// State.Merge leaves only the delta in its argument and returns that.
+type payload struct {
+	state *event.State // The state to send.
+	full  bool         // Whether this is our complete state, which contains everything we relay.
+}
+
+// Encode implements mesh.GossipData.
+func (p *payload) Encode() [][]byte {
+	return p.state.Encode()
+}
+
+// Merge implements mesh.GossipData, it combines the other payload into this one and
+// returns the result.
+func (p *payload) Merge(other mesh.GossipData) mesh.GossipData {
+	o := other.(*payload)
+	switch {
+	case p.full:
+		return p // We already hold everything we relay
+	case o.full:
+		return o // The complete state supersedes anything pending
+	case o.state != p.state:
+		p.state.Merge(o.state)
+	}
+	return p
+}
+
 // NewSwarm creates a new swarm messaging layer.
 func NewSwarm(cfg *config.ClusterConfig) *Swarm {
 	name := getLocalPeerName(cfg)
@@ -259,7 +287,10 @@ func (s *Swarm) merge(buf []byte) (mesh.GossipData, error) {
 	}
 
 	// Merge and get the delta
-	delta := s.state.Merge(other)
+	var delta mesh.GossipData
+	if s.state.Merge(other) != nil {
+		delta = &payload{state: other}
+	}
 	other.Subscriptions(func(ev *event.Subscription, v event.Value) {
 		if ev.Peer == uint64(s.router.Ourself.Name) {
 			return // Skip ourselves
@@ -299,7 +330,7 @@ func (s *Swarm) NumPeers() int {
 
 // Gossip returns the state of everything we know; gets called periodically.
 func (s *Swarm) Gossip() (complete mesh.GossipData) {
-	return s.state
+	return &payload{state: s.state, full: true}
 }
 
 // OnGossip merges received data into state and returns "everything new I've just
@@ -373,7 +404,7 @@ func (s *Swarm) Notify(ev event.Event, enabled bool) {
 	}
 
 	// Broadcasting just this operation
-	s.gossip.GossipBroadcast(op)
+	s.gossip.GossipBroadcast(&payload{state: op})
 }
 
 // Contains checks whether an event is currently triggered within the cluster.
